@@ -569,7 +569,7 @@ def h_variable_info(c):
     """lcm.input_processing.util.get_variable_info on a user model, with the declarations and what dags reports about them"""
     from dags import get_ancestors
     from lcm.grids import ContinuousGrid
-    from lcm.input_processing.util import get_variable_info, get_function_info, _get_auxiliary_variables
+    from lcm.input_processing.util import get_variable_info, get_function_info, _get_auxiliary_variables, get_grids, get_gridspecs
     model = _build_model(c)
     vi = get_variable_info(model)
     cols = ["is_state", "is_choice", "is_continuous", "is_discrete", "is_stochastic", "is_auxiliary", "is_sparse", "is_dense"]
@@ -579,6 +579,7 @@ def h_variable_info(c):
         filtered.update(get_ancestors(model.functions, name))
     aux = _get_auxiliary_variables(state_variables=list(model.states), function_info=fi, user_functions=model.functions)
     return {"rows": [[str(n), [bool(vi.loc[n, k]) for k in cols]] for n in vi.index],
+            "grid_names": [str(k) for k in get_grids(model)], "gridspec_names": [str(k) for k in get_gridspecs(model)],
             "inputs": {"states": [[str(k), isinstance(v, ContinuousGrid)] for k, v in model.states.items()],
                        "choices": [[str(k), isinstance(v, ContinuousGrid)] for k, v in model.choices.items()],
                        "stochastic_next": [str(n) for n in fi.index if bool(fi.loc[n, "is_stochastic_next"])],
